@@ -81,6 +81,9 @@ pub struct CardCfg {
     pub slow: bool,
     /// one 0xFF gap byte after the stop-tran token before busy starts (N_BR)
     pub gap_after_stop: bool,
+    /// further defined bits of the first OCR byte a card may set besides power-up status and CCS (UHS-II, S18A)
+    #[serde(default)]
+    pub ocr_extra: u8,
     pub adversary: Adversary,
 }
 
@@ -279,7 +282,6 @@ impl SimCard {
         let n = self.bytes;
         let blind = match self.cfg.adversary {
             Adversary::SilentFrom(k) | Adversary::BusyFrom(k) | Adversary::GarbageFrom(k) => n > k,
-            Adversary::TooSlow => true,
             _ => false,
         };
         if blind || self.suspend_judgement {
@@ -499,6 +501,7 @@ impl SimCard {
                     if self.cfg.kind == CardKind::V2Hc {
                         ocr0 |= 0x40;
                     }
+                    ocr0 |= self.cfg.ocr_extra & 0x21;
                     if self.stage == 3 {
                         self.stage = 4;
                     }
@@ -582,6 +585,7 @@ impl SimCard {
             self.watch = None;
         }
         let mut busy_byte = false;
+        let out_from_tx = !self.tx.is_empty();
         let mut out = if let Some(b) = self.tx.pop_front() {
             self.tx_popped += 1;
             if self.watch == Some(self.tx_popped) {
@@ -625,8 +629,11 @@ impl SimCard {
             Rx::Idle => {
                 if mosi & 0xC0 == 0x40 {
                     let cmd = mosi & 0x3F;
-                    if busy_byte && cmd != 0 && cmd != 12 {
+                    if busy_byte && cmd != 0 {
                         self.err(format!("CMD{} sent while the card signals busy", cmd));
+                    }
+                    if self.stream_next.is_none() && cmd != 12 && cmd != 0 && (self.tx.iter().any(|&b| b != 0xFF) || (out_from_tx && out != 0xFF)) {
+                        self.err(format!("CMD{} started while the card is still transmitting a response or data block", cmd));
                     }
                     if self.stream_next.is_some() && cmd != 12 && cmd != 0 {
                         self.err(format!("CMD{} sent during an open multi-block read (CMD12 required first)", cmd));
@@ -650,7 +657,10 @@ impl SimCard {
             }
             Rx::WriteToken { multi } => {
                 if mosi == 0x4C {
-                    // CMD12 may be sent at any time to abort the write
+                    // CMD12 aborts the write - but like every command it must not go out while the card signals busy
+                    if busy_byte {
+                        self.err("CMD12 sent while the card signals busy".to_string());
+                    }
                     self.frame[0] = mosi;
                     self.rx = Rx::Frame(1);
                 } else if busy_byte {
